@@ -130,6 +130,8 @@ pub fn main(args: &[String]) {
         let (wasm, _info) = gen::module(&mut r, &tab, &cfg);
         if amod::validate(&wasm, feats).is_err() { n_invalid += 1; continue; }
         let mut mcfg = ModuleConfig::new(); mcfg.generate_producers_section(false).generate_name_section(false);
+        // every other module is emitted with the code transform recorded: builder-made sequences carry no source locations, which must not matter
+        if n_gen % 2 == 0 { mcfg.preserve_code_transform(true); }
         let mut module = match catch(|| mcfg.parse(&wasm)) { Some(Ok(m)) => m, _ => continue };
         // rebuild every local function through the builder API
         let ids: Vec<FunctionId> = module.funcs.iter_local().map(|(id, _)| id).collect();
